@@ -58,6 +58,9 @@ def world_info(spec, key=None):
             "n_sources": len(w.ds.sources) if w.ds is not None else 0,
             "vf_names": [],
             "sparse": bool(w.ds is not None and any(s.layerName for s in w.ds.sources)),
+            "lib_filters": sorted({str(d.get("name", "")).replace(" ", "").lower()
+                                   for f in w.fonts
+                                   for d in f.lib.get("com.github.googlei18n.ufo2ft.filters", [])}),
         }
         if w.ds is not None:
             info["vf_names"] = [vf.name for vf in w.ds.getVariableFonts()] if w.ds.axes else []
